@@ -20,6 +20,18 @@ def arg(fn, call, i):
     return fn.d(a[i]) if i < len(a) else None
 
 
+def resolve(fn, n):
+    """n seen through value-preserving casts and single-assignment local temporaries (`const size_t total = num * size;
+    f(total)` resolves to the product node)"""
+    for _ in range(8):
+        n = uncast(fn, n)
+        if n is not None and n["k"] == "var" and n.get("sc") == "local" and n["n"] in fn.aliases():
+            n = fn.aliases()[n["n"]]
+        else:
+            break
+    return n
+
+
 def argstr(fn, call, i, addr=True, alias=True):
     """canonical string of argument i; with addr=True a leading & (and pointer casts) are stripped: the object passed by address"""
     n = arg(fn, call, i)
